@@ -32,6 +32,7 @@ Maths ==
   \cup {Inst("Clamp", "Clamp", "", 1, 1), Inst("Clamp", "Clamp", "", 0, 1), Inst("Clamp", "Clamp", "", 1, 2)}
   \cup Flav4("Reduce", {0, 3})
   \cup Plain("Ceil", {0}) \cup Plain("Floor", {0}) \cup Plain("Round", {0}) \cup Plain("Trunc", {0}) \cup Plain("Abs", {0}) \cup Plain("Average", {0})
+  \cup Plain("CeilP1", {0}) \cup Plain("FloorP1", {0}) \cup Plain("CeilBig", {0}) \cup Plain("FloorBig", {0})
 Errors == Plain("OnErrorReturn", {9}) \cup Plain("ThrowIfEmpty", {0})
 Utilities ==
   Flav2("Tap", {0}) \cup Flav2("TapOnNext", {0}) \cup Flav2("TapOnError", {0}) \cup Flav2("TapOnComplete", {0})
